@@ -5,7 +5,6 @@ import (
 	"os"
 )
 
-func cmdDrive(tab *SymTab, bw *bufio.Writer, workers, n, depth int, seed int64) { panic("todo") }
 func cmdSim(tab *SymTab, rd *os.File, bw *bufio.Writer, workers int, iavl bool)   { panic("todo") }
 func cmdReplay(tab *SymTab, rd *os.File, bw *bufio.Writer)                        { panic("todo") }
 func extraCommand(cmd string, tab *SymTab, rd *os.File, bw *bufio.Writer, workers, n, depth int, seed int64) bool {
